@@ -407,7 +407,7 @@ def execute(run):
                 for blk in txt.split('==================')[1:]:
                     if 'WARNING: ThreadSanitizer' not in blk:
                         continue
-                    if re.search(r'svgbob::|once_cell|svgbob_server', blk):
+                    if re.search(r'(?<![\w-])svgbob::|once_cell::|svgbob_server::(text_to_svgbob|hello)', blk):
                         own += 1
                         if own <= 3:
                             run.violations.append({'case': {'tsan': 'server under concurrent clients'}, 'signature': None,
